@@ -468,6 +468,10 @@ class Check:
             self.obligation_broken('forbidden construct in the development', '\n'.join(bad))
         target = vfile[:-2] + '.vo'
         with Lock('coq'):
+            # the generated files are not kept in git: a check run without a prior setup regenerates them
+            listed = [l.strip() for l in open(os.path.join(COQ, '_CoqProject')) if l.strip().startswith('gen/')]
+            if any(not os.path.exists(os.path.join(COQ, g)) for g in listed):
+                translate()
             ok, log = coq_make([target], timeout=timeout)
         obs = obligations(vfile)
         cone = coq_cone(vfile)
